@@ -137,6 +137,23 @@ def boundary_scenarios(work, rng, tier):
             else:
                 s.add_file(nm, b"%d" % i)
         out.append((s, []))
+    # hard links across inode metadata blocks: a listing that refers back to inodes in an earlier (and later) inode block than its
+    # neighbours - every such entry needs a header of its own
+    s = gen.Scenario(work, "b_links_multiblock")
+    s.add_dir("/a")
+    s.add_dir("/b")
+    for i in range(700 if tier == "quick" else 2500):
+        s.add_slink("/a/f%04d" % i, "t" * (20 + i % 40))
+    for i in range(12):
+        s.add_file("/a/00g%02d" % i, b"g%d" % i)            # sorted first: their inodes sit in the first inode block
+    s.add_file("/b/a_own", b"own file")
+    s.add_file("/b/m_own", b"own file 2")
+    for j, tgt in enumerate(["/a/00g00", "/a/00g05", "/a/00g11"]):
+        s.add_link("/b/h%d" % j, tgt)
+        s.add_link("/b/z%d" % j, tgt)
+        s.add_link("/a/zz%d" % j, tgt)
+    s.add_link("/first", "/b/m_own")
+    out.append((s, []))
     # long names, odd characters
     s = gen.Scenario(work, "b_names")
     for nm in ["x" * 255, "y" * 256, "sp ace", 'quo"te', "back\\slash", "tab\tname", "hällö", "#hash", "-dash", "träiling "]:
